@@ -313,7 +313,6 @@ t("@raise_reason", "", None, "raise {0}", [ST])
 t("@if", "", U256, "1 if {0} else 2", [BOOL])
 t("@not", "", BOOL, "not {0}", [BOOL])
 t("@range_bound", "", None, "for i_: uint256 in range({0}, bound=4):\n        self.cnt_ += i_", [U256], decls=["cnt_: uint256"])
-t("@range_start", "", None, "for i_: uint256 in range({0}, {0} + 2):\n        self.cnt_ += i_", [U256], decls=["cnt_: uint256"])
 t("@index_static", "", U256, "self.ia_[{0}]", [U256], decls=["ia_: uint256[3]"])
 t("@index_dyn", "", U256, "self.id_[{0}]", [U256], decls=["id_: DynArray[uint256, 3]"])
 t("@hashmap_key_b", "", U256, "self.hb_[{0}]", [BY], decls=["hb_: HashMap[Bytes[64], uint256]"])
@@ -322,7 +321,9 @@ t("@hashmap_key_a", "", U256, "self.ha_[{0}]", [ADDR], decls=["ha_: HashMap[addr
 t("@in_list", "", BOOL, "{0} in [1, 2, 3]", [U256])
 t("@in_dyn", "", BOOL, "{0} in {1}", [B32, DYNB])
 t("@send_value", "", None, "send(msg.sender, {0})", [U256])
-for op in ("+", "-", "*", "//", "%", "**", "<<", ">>", "&", "|", "^", "<", ">="):
+t("@pow_base", "", U256, "{0} ** 2", [U256])
+t("@pow_exp", "", U256, "2 ** {0}", [U256])
+for op in ("+", "-", "*", "//", "%", "<<", ">>", "&", "|", "^", "<", ">="):
     t("@binop", op, BOOL if op in ("<", ">=") else U256, "{0} " + op + " {1}", [U256, U256])
 for op in ("+", "-", "*", "//", "%", "<"):
     t("@binop_i", op, BOOL if op == "<" else I128, "{0} " + op + " {1}", [I128, I128])
